@@ -6,10 +6,11 @@ CONSTANTS MaxFds = 2
   CloseOnReject = TRUE
   RejectCtrunc = TRUE
   AbsorbDesc = TRUE
+  ValueHandover = TRUE
   MaxOps = 4
   Lens = {0, 1, 2, 3}
   Vals = {1, 3, 4, 5, 6, 7}
   Rbufs = {1, 2, 4}
 SPECIFICATION MSpec
-INVARIANTS ImplRefines InOrder Whole LedgerBalanced StreamInSync
+INVARIANTS ImplRefines InOrder Whole LedgerBalanced StreamInSync DeliveredImmutable
 CHECK_DEADLOCK FALSE
